@@ -1186,3 +1186,159 @@ MUTANTS += [
     dict(name="probe points looked up in length units", units=["Device.make_mesh"], edits=[(DV_, "return [self.mesh.closest_site(xy) for xy in self.probe_points / xi]", "return [self.mesh.closest_site(xy) for xy in self.probe_points]")]),
     dict(name="device areas scaled by xi", units=["Device.make_mesh"], edits=[(DV_, "        return self.mesh.areas * self.coherence_length.magnitude**2", "        return self.mesh.areas * self.coherence_length.magnitude")]),
 ]
+
+
+# ------------------------------------------------------------------------------------------------------------------ cell areas (fifth session)
+
+def run_voronoi_cell_areas(mutate=None, prefixes=("C07.",)):
+    """compute_voronoi_polygon_areas, the per-site rule, on the REAL code with real numpy on object arrays: the combinatorial structure of ONE cell is
+    concrete (an interior cell, or a boundary cell with 1..3 Voronoi vertices whose site is an end point of exactly two boundary edges, the site at
+    different positions of the site list, further sites and boundary edges around it), every coordinate is a symbolic real, and the two geometric
+    oracles are abstract: the convex-hull routine (area of the hull of a POINT SET, convexity flag: free answers) and the angular sort (an arbitrary
+    permutation of the rows - all permutations are enumerated).  Decided for all coordinates and all oracle answers:
+      interior site: area = hull area of its Voronoi vertices; a non-convex interior cell is refused;
+      boundary site: the hull routine is asked about exactly {Voronoi vertices} + {midpoints of the TWO boundary edges that end at this site} + {the site};
+        area = that hull area, minus the hull area of {the two midpoints, the site} when the completed cell is not convex; in the polygon handed back the
+        site sits between the two midpoints whenever the angular sort put them next to each other (cyclically), the other points keep the sort's order, and
+        otherwise (malformed cell) a warning is logged;
+      frame: the iteration of site s writes areas[s] only; no input array is written; one area and one polygon per site, in site order."""
+    import itertools as _it
+    import numpy as np
+    mut = [(o, n) for (m, o, n) in (mutate or []) if m == U_]
+
+    class NPO:
+        """real numpy, except that freshly allocated float arrays hold objects (symbolic reals)"""
+        def __getattr__(self, k):
+            return getattr(np, k)
+
+        @staticmethod
+        def zeros(shape, dtype=float):
+            a = np.empty(shape, dtype=object)
+            a[...] = 0
+            return a
+    warnings_ = []
+    logger = type("Log", (), {"warning": staticmethod(lambda *a, **k: warnings_.append(a)), "info": staticmethod(lambda *a, **k: None), "debug": staticmethod(lambda *a, **k: None)})()
+    L = instrument.load(U_, rebind={"np": NPO(), "tqdm": (lambda it, **k: it), "logger": logger}, mutate=mut, vc=vcm.VC())
+
+    def key(v):
+        return z3.simplify(SR.lift(v).e).sexpr()
+
+    def pkey(row):
+        return (key(row[0]), key(row[1]))
+
+    def pick(n, what):
+        """an arbitrary element of range(n): the path forks"""
+        for i in range(n - 1):
+            if bool(SB(sym.FreshBool(f"{what}_is_{i}"))):
+                return i
+        return n - 1
+
+    CASES = [dict(kind="interior", m=3, pos=1), dict(kind="boundary", m=1, pos=2), dict(kind="boundary", m=2, pos=0, flip=True)]
+
+    def body(case):
+        c = sym.ctx()
+        c.record_prefixes = tuple(prefixes)
+        del warnings_[:]
+        tag = f"{case['kind']} cell, {case['m']} Voronoi vertices, site {case['pos']}"
+        NS, T = 5, 6
+        sites = np.empty((NS, 2), dtype=object)
+        dual = np.empty((T, 2), dtype=object)
+        for i in range(NS):
+            sites[i] = [SR(z3.Real(f"site{i}_x")), SR(z3.Real(f"site{i}_y"))]
+        for t in range(T):
+            dual[t] = [SR(z3.Real(f"vor{t}_x")), SR(z3.Real(f"vor{t}_y"))]
+        s = case["pos"]
+        others = [i for i in range(NS) if i != s]
+        p, q, r = others[0], others[1], others[2]
+        # edges of the mesh (site pairs); the boundary ones are picked by index.  Two boundary edges end at s (written in either orientation), one
+        # boundary edge does not touch it, one interior edge touches it.
+        e_sp = (p, s) if case.get("flip") else (s, p)
+        edges = np.array([(p, q), e_sp, (s, r), (q, s), (q, r)], dtype=np.int64)
+        bidx = np.array([0, 1, 3], dtype=np.int64) if case["kind"] == "boundary" else np.array([0, 4], dtype=np.int64)
+        boundary = np.array(sorted({int(v) for k in bidx for v in edges[k]}), dtype=np.int64)
+        cell = [4, 0, 3][: case["m"]]
+        polygons = [np.array([1, 2, 5]) for _ in range(3)]
+        polygons[s if s < 3 else 2] = np.array(cell)
+        # the site list handed in has three entries: positions 0..2 (the loop runs over the polygons); the cell under test is entry s
+        assert s < 3
+        under_test = frozenset(pkey(dual[t]) for t in cell)
+        H, asked, oriented = {}, [], []
+
+        def hull(coords):
+            rows = [tuple(x) for x in np.asarray(coords, dtype=object)]
+            pts = frozenset(pkey(x) for x in rows)
+            asked.append((pts, len(rows)))
+            if pts not in H:
+                free = bool(under_test & pts) or any(pkey(sites[s]) in pts for _ in (0,))
+                H[pts] = (SR(sym.FreshReal("hull_area")), bool(SB(sym.FreshBool("hull_says_convex"))) if free else True)
+            return H[pts]
+
+        def orient_(vertices):
+            v = np.asarray(vertices, dtype=object)
+            n_ = len(v)
+            if not (under_test & frozenset(pkey(x) for x in v)):
+                return v.copy()
+            left, perm = list(range(n_)), []
+            while left:
+                perm.append(left.pop(pick(len(left), f"sort_puts_row_{len(perm)}")))
+            oriented.append((frozenset(pkey(x) for x in v), [pkey(v[i]) for i in perm]))
+            return v[perm]
+        L.ns["get_convex_polygon_area"] = hull
+        L.ns["orient_convex_polygon"] = orient_
+        # neighbouring interior cells must not fork: boundary set excludes them unless the case says boundary
+        if case["kind"] == "interior":
+            boundary = np.array([v for v in boundary if v != s], dtype=np.int64)
+        snap = [a.copy() for a in (sites, dual, boundary, edges, bidx)] + [pg.copy() for pg in polygons]
+        # the two midpoints and the site are pairwise different points, and no Voronoi vertex of the cell coincides with them (a cell of positive size)
+        mids = [((sites[a][0] + sites[b][0]) / 2, (sites[a][1] + sites[b][1]) / 2) for a, b in (e_sp, (q, s))]
+        special = [pkey(m_) for m_ in mids] + [pkey(sites[s])]
+        pts_all = [tuple(m_) for m_ in mids] + [tuple(sites[s])] + [tuple(dual[t]) for t in cell]
+        # generic position: the points of the cell have pairwise different abscissae (so that equality of two points is decided by the first coordinate;
+        # coincident or vertically aligned points are a set of measure zero and stay with the bounded family)
+        for a_, b_ in _it.combinations(pts_all, 2):
+            assume(SB(SR.lift(a_[0]).e != SR.lift(b_[0]).e))
+        try:
+            areas, vor = L["compute_voronoi_polygon_areas"](sites, dual, boundary, edges, bidx, polygons)
+        except ValueError as ex:
+            cv = H.get(under_test, (None, True))[1]
+            check(f"C07.cell_area.refused_only_for_a_non_convex_interior_cell[{tag}]", z3.BoolVal(case["kind"] == "interior" and cv is False), note=str(ex)[:120])
+            return
+        check(f"C07.cell_area.one_area_and_one_polygon_per_site_in_site_order[{tag}]", z3.BoolVal(len(areas) == 3 and len(vor) == 3))
+        check(f"C07.cell_area.inputs_not_written[{tag}]", z3.BoolVal(all(np.array_equal(a, b) for a, b in zip([sites, dual, boundary, edges, bidx] + polygons, snap))))
+        got = SR.lift(areas[s])
+        if case["kind"] == "interior":
+            check(f"C07.cell_area.interior_cell_is_the_hull_of_its_voronoi_vertices[{tag}]", z3.And(z3.BoolVal(under_test in H and H[under_test][1] is True), got.e == H[under_test][0].e if under_test in H else z3.BoolVal(False)))
+            check(f"C07.cell_area.interior_polygon_is_the_sorted_vertex_list[{tag}]", z3.BoolVal(bool(oriented) and [pkey(x) for x in vor[s]] == oriented[-1][1] and oriented[-1][0] == under_test))
+            return
+        full = under_test | frozenset(special)
+        tri = frozenset(special)
+        check(f"C07.cell_area.midpoints_are_those_of_the_two_boundary_edges_at_this_site[{tag}]",
+              z3.BoolVal(bool(oriented) and oriented[-1][0] == under_test | frozenset(special[:2])), note=f"sorted set has {len(oriented[-1][0]) if oriented else 0} points")
+        check(f"C07.cell_area.hull_asked_about_vertices_midpoints_and_the_site[{tag}]", z3.BoolVal(full in H))
+        if full in H:
+            a_full, convex = H[full]
+            want = a_full if convex else a_full - H[tri][0] if tri in H else None
+            check(f"C07.cell_area.boundary_cell_is_the_completed_hull_minus_the_concave_triangle[{tag}]", got.e == want.e if want is not None else z3.BoolVal(False))
+        if oriented:
+            order = oriented[-1][1]
+            n_ = len(order)
+            i_, j_ = sorted(order.index(k_) for k_ in special[:2])
+            out = [pkey(x) for x in vor[s]]
+            adjacent = (j_ == i_ + 1) or (i_ == 0 and j_ == n_ - 1)
+            check(f"C07.cell_area.other_points_keep_the_order_of_the_angular_sort[{tag}]", z3.BoolVal([k_ for k_ in out if k_ != special[2]] == order and out.count(special[2]) == 1))
+            if adjacent and out.count(special[2]) == 1:
+                k = out.index(special[2])
+                nb = {out[(k - 1) % len(out)], out[(k + 1) % len(out)]}
+                check(f"C07.cell_area.site_sits_between_the_two_midpoints[{tag}]", z3.BoolVal(nb == set(special[:2])))
+            else:
+                check(f"C07.cell_area.malformed_cell_is_reported[{tag}]", z3.BoolVal(bool(warnings_)))
+        # frame: the other entries were produced by their own iterations (interior neighbours: hull of their own three vertices)
+        nb_set = frozenset(pkey(dual[t]) for t in (1, 2, 5))
+        check(f"C07.cell_area.iteration_writes_only_its_own_entry[{tag}]",
+              z3.And(*[SR.lift(areas[i]).e == H[nb_set][0].e for i in range(3) if i != s]) if nb_set in H else z3.BoolVal(False))
+    obls, n = [], 0
+    for case in CASES:
+        o_, n_ = explore(lambda case=case: body(case), safety=False, max_paths=20000)
+        obls += o_
+        n += n_
+    return dict(obls=obls, paths=n, sources=[L.info()], consistent=sym.consistent())
